@@ -34,22 +34,33 @@ class References:
     if isinstance(item, gfapy.Line):
       item = item.name
     self._check_item_included(item)
-    self.items.delete(item)
+    self.items.remove(item)
     return None
 
   def _rm_item_from_connected_group(self, item):
     if isinstance(item, str):
-      item = self._gfa.line(item)
+      line = self._gfa.line(item)
+      if line is None:
+        raise gfapy.NotFoundError(
+          "Line: {}\n".format(self)+
+          "Item: {}\n".format(repr(item))+
+          "Items of the line do not include the item")
+      item = line
     self._check_item_included(item)
+    for i, x in enumerate(self.items):
+      if x is item:
+        self.items.pop(i)
+        break
     item._delete_reference(self, "sets")
-    self._delete_reference(item, "items")
+    item._disconnect_if_unreferenced_virtual()
     return None
 
   def _check_item_included(self, item):
-    if item not in self.items:
+    if not any(x is item or (isinstance(item, str) and x == item) \
+               for x in self.items):
       raise gfapy.NotFoundError(
         "Line: {}\n".format(self)+
-        "Item: {}".format(repr(item))+
+        "Item: {}\n".format(repr(item))+
         "Items of the line do not include the item")
 
   def _add_item_to_unconnected_group(self, item, append = True):
@@ -62,8 +73,11 @@ class References:
     return None
 
   def _add_item_to_connected_group(self, item, append = True):
-    self._add_reference(self.prepare_and_check_ref(item),
-                       "items", append = append)
+    item = self._new_item_line(item, "sets")
+    if append:
+      self.items.append(item)
+    else:
+      self.items.insert(0, item)
     return None
 
   def _initialize_references(self):
